@@ -16,6 +16,8 @@ DECIDED = ('(a) the only unpickler calls of the package are in cookie_decode and
            'exactly the text it emits after the separator; (e) get_cookie returns element 1 of what cookie_decode(<current '
            'cookie text>, <current secret>) returned in this very call, only when element 0 equals the requested name, '
            'else the default - no memo keyed by name stands between.')
+DECIDED_MORE = ('Also: no shared writes on the signing / verifying path.')
+DECIDED = DECIDED + ' ' + DECIDED_MORE
 NOT_DECIDED = ('round trip of plain cookie text through http.cookies.SimpleCookie quoting (library value semantics); '
                'strength of HMAC-MD5 (assumed unforgeable without the secret).')
 ASSUMPTIONS = ['HMAC is unforgeable without the secret', 'base64.b64encode is canonical (one text per byte string)']
